@@ -126,7 +126,7 @@ def run_keep(case) -> None:
         fr = traceback.extract_tb(e.__traceback__)[-1]
         raise Failure(f"sdk-assert:{variant}:{case['hardware']}:{fr.name}", case, f"{api}(number={n}) with {case['others']} other live qubits on {case['hardware']} hardware hits an assertion in {fr.name}: {fr.line}")
     qubits = res[0] if api.endswith("with_info") else res
-    stack.expect(role, "K", n, [{"bell_state": b, "as_qlink10": case.get("wire") == "qlink10"} for b in case["bells"]])
+    stack.expect(role, "K", n, [{"bell_state": b, "as_qlink10": case.get("wire") in ("qlink10", "qlink10-int"), "qlink10_int": case.get("wire") == "qlink10-int"} for b in case["bells"]])
     try:
         conn.flush()
     except sim.WouldBlock:
@@ -333,6 +333,8 @@ def keep_cases(max_pairs: int, ctx_open) -> List[Dict[str, Any]]:
                             if variant in ("recv_keep", "recv_keep_seq") and others == 0:
                                 # the same scenario with the responses arriving as qlink-interface 1.0 objects
                                 cases.append({"kind": "keep", "bells": list(bells), "variant": variant, "hardware": hardware, "others": others, "expect": expect, "wire": "qlink10"})
+                                if n <= 2:
+                                    cases.append({"kind": "keep", "bells": list(bells), "variant": variant, "hardware": hardware, "others": others, "expect": expect, "wire": "qlink10-int"})
     # sequential mode for a single pair without a post routine (legal: the caller handles the qubit afterwards)
     for hardware in ("generic", "nv", "generic1"):
         for b in range(4):
